@@ -366,6 +366,19 @@ class Parser:
             self.__set_expected("identifier")
             return True
 
+        condition = (
+            ttype in ["comma", "right_parenthesis"]
+            and self.__curcommand.non_deterministic_args
+            and not self.__curcommand.iscomplete()
+        )
+        if condition:
+            # The test ends here: assign its arguments to their proper
+            # slots, then let its parent handle the token again.
+            self.__curcommand.reassign_arguments()
+            if self.__curcommand.iscomplete():
+                self.lexer.pos -= 1
+                return self.__check_command_completion(testsemicolon=False)
+
         if ttype == "comma":
             self.__set_expected("identifier")
             return True
